@@ -126,6 +126,8 @@ Proof.
     + apply Hib.
     + apply bind_ext; [|intros; apply meq_refl]. apply print_args_ext. intros e.
       unfold print_arg. cbn [d_retry dev_none]. apply IHe.
+    + apply meq_refl.
+    + apply meq_refl.
 Qed.
 
 End NoDev.
